@@ -370,7 +370,7 @@ Proof. intros. unfold step. simpl. rewrite H. reflexivity. Qed.
 (* ---- the state of both sides when the entry function is entered ------------------------------------ *)
 
 Definition entry_morph (funcs : list fdef) (n : nat) : morph :=
-  {| mm := map MF funcs ++ map MA (rev (seq 0 n)); mv := []; mf := []; mc := []; mi := []; mar := [] |}.
+  {| mm := map MF funcs ++ map MA (rev (seq 0 n)); mv := []; mf := []; mc := []; mi := []; mar := []; mrc := [] |}.
 
 Lemma entry_morph_ma : forall funcs n c a, mget (entry_morph funcs n) c = Some (MA a) ->
   exists i, c = (length funcs + i)%nat /\ (i < n)%nat /\ a = (n - 1 - i)%nat.
@@ -395,13 +395,13 @@ Proof.
     destruct (nth_error (rev (seq 0 n)) (c - length (map MF funcs))); discriminate.
 Qed.
 
-Lemma entry_MS : forall AF ftab TL FS cp funcs args l,
-  MS AF ftab TL FS cp (entry_morph funcs (length args))
+Lemma entry_MS : forall AF ftab TL FS cp rc funcs args l,
+  MS AF ftab TL FS cp rc (entry_morph funcs (length args))
      {| cells := map (fun f => CFun f []) funcs ++ map (fun z => CInt (wrap32 z)) args;
         arrs := []; recs := []; out := [] |}
      (rev (map (fun z => HInt (wrap32 z)) args) ++ l).
 Proof.
-  intros AF ftab TL FS cp funcs args l. set (n := length args). constructor; cbn [cells].
+  intros AF ftab TL FS cp rc funcs args l. set (n := length args). constructor; cbn [cells].
   - unfold entry_morph. cbn [mm]. rewrite !app_length, !map_length, rev_length, seq_length. reflexivity.
   - intros c a H. apply entry_morph_ma in H. destruct H as (i & -> & Hi & ->).
     destruct (nth_error args i) as [z|] eqn:E; [|apply nth_error_None in E; unfold n in Hi; lia].
@@ -425,6 +425,14 @@ Proof.
   - intros ar l0 [].
   - intros ar elems Hn. destruct ar; discriminate Hn.
   - reflexivity.
+  - intros r l0 [].
+  - intros r flds Hn. destruct r; discriminate Hn.
+  - reflexivity.
+  - intros _ c Hc. destruct (Nat.lt_ge_cases c (length funcs)) as [Hlt | Hge].
+    + rewrite nth_error_app1 in Hc by (rewrite map_length; exact Hlt). rewrite nth_error_map in Hc.
+      destruct (nth_error funcs c); discriminate Hc.
+    + rewrite nth_error_app2 in Hc by (rewrite map_length; exact Hge). rewrite nth_error_map in Hc.
+      destruct (nth_error args (c - length (map (fun f => CFun f []) funcs))); discriminate Hc.
 Qed.
 
 (* ---- compile_program_correct_P ------------------------------------------------------------ *)
@@ -563,7 +571,7 @@ Proof.
     unfold h'. rewrite nth_error_app2, Nat.sub_diag by lia. reflexivity. }
   (* the simulation of the body *)
   pose proof (CompileCorrect4.body_all X G lv funcs_okP fuel) as Hbody.
-  assert (HMS : MS (g_all G) (x_ftab X) (g_tl G) (g_sigs G) (Nat.leb 6 lv) (entry_morph (p_funcs p) n) st1 h').
+  assert (HMS : MS (g_all G) (x_ftab X) (g_tl G) (g_sigs G) (Nat.leb 6 lv) (Nat.leb 8 lv) (entry_morph (p_funcs p) n) st1 h').
   { unfold h', h0. rewrite <- app_assoc. apply entry_MS. }
   assert (HF2 : Forall2 (fun c a => vrel (entry_morph (p_funcs p) n) c a) (seq nf n) astk).
   { apply Forall2_pointwise; [unfold astk; rewrite rev_length, !seq_length; reflexivity|].
@@ -584,9 +592,9 @@ Proof.
   rewrite <- Hmaddr in Hrun. fold frc in Hrun. unfold act_done in Hrun. cbn [F f_ret f_fp f_gp f_below f_exc] in Hrun.
   destruct r as [c|ex| |]; try exact I.
   - destruct Hrun as (h2 & o2 & m2 & a & Hst2 & Hm2 & HMS2 & _ & Ho2).
-    destruct (vrel_kind _ _ _ _ _ _ _ _ _ _ HMS2 Hm2) as (v & Hcv & _).
+    destruct (vrel_kind _ _ _ _ _ _ _ _ _ _ _ HMS2 Hm2) as (v & Hcv & _).
     unfold get_cell. rewrite Hcv. intros Hiv.
-    destruct (vrel_intv _ _ _ _ _ _ _ _ _ _ v HMS2 Hm2 Hcv ltac:(destruct v; try discriminate Hiv; exact I)) as (z & Hhz & Hvz).
+    destruct (vrel_intv _ _ _ _ _ _ _ _ _ _ _ v HMS2 Hm2 Hcv ltac:(destruct v; try discriminate Hiv; exact I)) as (z & Hhz & Hvz).
     assert (Hfin : run X prog 2 (mkst retL (a :: glob) h2 o2 {| r_fp := 0; r_gp := 0; r_exc := None; r_frames := [] |})
                    = VRet z (rev (out st2))).
     { cbn [run]. rewrite (CompileCorrect4.step_label X _ prog retL (a :: glob) h2 o2 S6).
@@ -607,6 +615,15 @@ Proof.
 Qed.
 
 End Main.
+
+(* level 8: level 7 + records with int fields (construction, nil, field read, field assignment; nil_pointer) *)
+Theorem compile_program_correct_P8 : forall p args, prog_in_P 8 p = true -> forall fuel,
+  match run_program fuel p args with
+  | OResult v printed => is_intv v = true -> exists k z, run_vm p k args = VRet z printed /\ val_rel v z
+  | OUnhandled ex printed => exists k, run_vm p k args = VExc ex printed
+  | OFuel | OStuck => True
+  end.
+Proof. intros p args H fuel. exact (compile_program_correct_P p args 8 H fuel). Qed.
 
 (* level 7: level 6 + one-dimensional int arrays *)
 Theorem compile_program_correct_P7 : forall p args, prog_in_P 7 p = true -> forall fuel,
